@@ -45,6 +45,7 @@ type Cfg struct {
 	Rpf  int
 	Eqf  int
 	Umf  int
+	Lss  int // 1: a LessFunc of the caller's, installed before the content is pushed
 	Maf  int
 	Evl  int
 }
@@ -129,7 +130,7 @@ func (c Cfg) String() string {
 	for _, kv := range []struct {
 		k string
 		v int
-	}{{"ppf", c.Ppf}, {"vpf", c.Vpf}, {"rpf", c.Rpf}, {"eqf", c.Eqf}, {"umf", c.Umf}, {"maf", c.Maf}, {"evl", c.Evl}} {
+	}{{"ppf", c.Ppf}, {"vpf", c.Vpf}, {"rpf", c.Rpf}, {"eqf", c.Eqf}, {"umf", c.Umf}, {"lss", c.Lss}, {"maf", c.Maf}, {"evl", c.Evl}} {
 		if kv.v != 0 {
 			add(kv.k, strconv.Itoa(kv.v))
 		}
@@ -187,6 +188,8 @@ func parseCfg(s string) (c Cfg) {
 			c.Eqf = n
 		case "umf":
 			c.Umf = n
+		case "lss":
+			c.Lss = n
 		case "maf":
 			c.Maf = n
 		case "evl":
@@ -757,6 +760,10 @@ var shareCache map[string]stackage.Stack
 
 func BuildStack(v V) stackage.Stack {
 	s := newStack(v.Cfg.Kind, v.Cfg.Cap)
+	if v.Cfg.Lss != 0 {
+		// a comparison function of the caller's, installed while the stack is still empty (the content comes afterwards)
+		s.SetLessFunc(func(i, j int) bool { return i > j })
+	}
 	for _, x := range v.Xs {
 		s.Push(Build(x))
 	}
